@@ -204,18 +204,20 @@ impl <T: ArrayElement> ArrayJoining<T> for Array<T> {
     }
 
     fn stack(arrs: Vec<Self>, axis: Option<usize>) -> Result<Self, ArrayError> {
-        arrs.axis_opt_in_bounds(axis)?;
         if arrs.is_empty() { Self::empty() }
         else if (0..arrs.len() - 1).any(|i| arrs[i].get_shape() != arrs[i + 1].get_shape()) {
             Err(ArrayError::ParameterError { param: "arrs", message: "all input arrays must have the same shape", })
         } else {
+            // the new axis may take any position of the result, including the last one
             let axis = axis.unwrap_or(0);
-            let new_shape = arrs[0].get_shape()?.insert_at(axis, arrs.len());
-
-            let (mut arrs, initial) = (arrs.clone(), arrs[0].clone());
-            arrs.remove_at(0).into_iter()
-                .fold(initial, |a, b| a.append(&b, Some(axis)).unwrap())
-                .reshape(&new_shape)
+            if axis > arrs[0].ndim()? { return Err(ArrayError::AxisOutOfBounds) }
+            let arrs = arrs.iter()
+                .map(|arr| arr.expand_dims(vec![isize::try_from(axis).unwrap_or(isize::MAX)]))
+                .collect::<Vec<Result<Self, _>>>()
+                .has_error()?.into_iter()
+                .map(Result::unwrap)
+                .collect::<Vec<Self>>();
+            Self::concatenate(arrs, Some(axis))
         }
     }
 
@@ -270,7 +272,7 @@ impl <T: ArrayElement> ArrayJoining<T> for Array<T> {
                 .has_error()?.into_iter()
                 .map(Result::unwrap)
                 .collect::<Vec<Self<>>>();
-            arrs.validate_stack_shapes(2, 0)?;
+            arrs.validate_stack_shapes(2, 2)?;
 
             let mut new_shape = arrs[0].get_shape()?;
             new_shape[2] = arrs.iter().fold(0, |a, b| a + b.shape[2]);
